@@ -4547,6 +4547,15 @@ class ParameterizedMetaclass(type):
             if owning_class != mcs:
                 parameter = copy.copy(parameter)
                 parameter.owner = mcs
+                # As for instance-level copies, the copy must not share
+                # mutable attribute values (e.g. the objects of a Selector)
+                # with the Parameter it was copied from
+                for slot in type(parameter)._all_slots_:
+                    v = getattr(parameter, slot)
+                    if slot == 'watchers':
+                        parameter.watchers = {what: list(ws) for what, ws in v.items()}
+                    elif _is_mutable_container(v) and slot != 'default':
+                        setattr(parameter, slot, copy.copy(v))
                 type.__setattr__(mcs,attribute_name,parameter)
                 # the class and its subclasses are now governed by the copy
                 mcs._clear_parameters_cache()
